@@ -36,6 +36,7 @@ type rdocRes struct {
 	execErr string
 	build   string
 	answers []string // per query, in the order of queries()
+	again   string   // a question answered differently when asked again
 	ran     bool
 }
 
@@ -221,7 +222,15 @@ func initPtrs(v reflect.Value) {
 	}
 }
 
+// a question is registered once and asked three times: in order, in order again, and in reverse order — what
+// RuntimeDoc returns may not depend on what was asked before
 func q(tag string, v any, names ...string) {
+	questions = append(questions, func(pass string) { ask(tag+pass, v, names...) })
+}
+
+var questions []func(pass string)
+
+func ask(tag string, v any, names ...string) {
 	defer func() {
 		if e := recover(); e != nil {
 			fmt.Println(tag, "panic")
@@ -252,6 +261,15 @@ var probes []func()
 func main() {
 	for _, p := range probes {
 		p()
+	}
+	for _, f := range questions {
+		f("")
+	}
+	for _, f := range questions {
+		f("@2")
+	}
+	for i := len(questions) - 1; i >= 0; i-- {
+		questions[i]("@3")
 	}
 }
 `
@@ -304,10 +322,23 @@ func (c *rdocCase) fill(out *genRunOut, i int) {
 		sp := strings.SplitN(l, " ", 2)
 		if len(sp) == 2 && strings.HasPrefix(sp[0], pkg+"#") {
 			var k int
-			fmt.Sscan(strings.TrimPrefix(sp[0], pkg+"#"), &k)
-			if k < len(qs) {
+			tag, pass, _ := strings.Cut(strings.TrimPrefix(sp[0], pkg+"#"), "@")
+			fmt.Sscan(tag, &k)
+			if k < len(qs) && pass == "" {
 				r.answers[k] = sp[1]
 				r.ran = true
+			}
+		}
+	}
+	for _, l := range strings.Split(out.ProbeOut, "\n") {
+		sp := strings.SplitN(l, " ", 2)
+		if len(sp) == 2 && strings.HasPrefix(sp[0], pkg+"#") {
+			var k int
+			tag, pass, _ := strings.Cut(strings.TrimPrefix(sp[0], pkg+"#"), "@")
+			fmt.Sscan(tag, &k)
+			if k < len(qs) && pass != "" && r.again == "" && r.answers[k] != "" && sp[1] != r.answers[k] {
+				how := map[string]string{"2": "after every question had been asked once", "3": "in a third round in reverse order"}[pass]
+				r.again = fmt.Sprintf("(*%s).RuntimeDoc(%s) returned %s the first time and %s when asked again %s", c.Types[qs[k].typ].Name, qs[k].name, decodeAnswer(r.answers[k]), decodeAnswer(sp[1]), how)
 			}
 		}
 	}
@@ -370,6 +401,9 @@ func (c *rdocCase) Oracle(out string) string {
 		return "the runtimedoc generator failed: " + out
 	case out == "build-fail":
 		return "the generated code does not compile with the package: " + clip(r.build, 400)
+	}
+	if r.again != "" {
+		return r.again
 	}
 	for k, q := range c.queries() {
 		t := c.Types[q.typ]
@@ -657,7 +691,7 @@ func init() {
 			Name: "packages", Quick: 480, Thorough: 3600, New: func() Case { return &rdocCase{} },
 			Gen:      func(r *Rng, i int) Case { return genRdoc(r) },
 			BatchRun: rdocBatch, ShrinkBudget: 25, MaxShrinks: 6,
-			Rule: "packages of 2–6 types: exported and unexported structs (plain, generic) with exported / unexported / inline-struct / empty-struct fields and fields embedded by value and by pointer, defined int / map / slice / func / string types, interfaces; doc comments from a menu with the name as first word, as a prefix of a longer word, alone, quotes, backslashes, %d, %v, @name, backquotes, non-ASCII, blank lines and tag lines; the real generator (120 packages per Execute), go build, and one probe program per batch calling RuntimeDoc on every exported non-interface type for (), F0…F2, f0, T0, T1 and an unknown name; compared with the model query by query; oracle: the doc text the harness wrote",
+			Rule: "packages of 2–6 types: exported and unexported structs (plain, generic) with exported / unexported / inline-struct / empty-struct fields and fields embedded by value and by pointer, defined int / map / slice / func / string types, interfaces; doc comments from a menu with the name as first word, as a prefix of a longer word, alone, quotes, backslashes, %d, %v, @name, backquotes, non-ASCII, blank lines and tag lines; the real generator (120 packages per Execute), go build, and one probe program per batch calling RuntimeDoc on every exported non-interface type for (), F0…F2, f0, T0, T1 and an unknown name, every question asked three times in one process (in order, in order again, in reverse order: an answer may not depend on what was asked before); compared with the model query by query; oracle: the doc text the harness wrote, and the same answer each time",
 		},
 	}})
 }
